@@ -33,6 +33,9 @@ CLAIMED = {
  "C17": ("interprocedural must-lockset analysis with inferred guarded-by relations, atomic-access recognition and owner-encapsulation check over go/ssa",
          "Static lockset discipline sufficient for data-race freedom: every field (or referent of a pointer/map/slice/list field) of the shared public objects that is written after construction is accessed only through sync/atomic, or under one common mutex of its object on every path and from every call site (exclusive for writes), or through a verified encapsulating owner holding its mutex; package variables are written only during initialisation. Holds for all goroutine schedules because must-locksets are schedule-independent. Assumes objects are not copied, user callbacks are safe, third-party objects are used under our lock or documented safe.",
          "5/C17"),
+ "C20": ("all-paths emission counting + argument provenance + bound-method/closure resolution + kind-tag dispatch agreement + life-cycle typestate with lockset (blocked-wait rule) over go/ssa",
+         "Static: Sample emits rtt/in-flight once each with the parameters and the drop counter iff didDrop; every sampler-owning OnSample calls Sample exactly once with its own parameters; strategy emissions carry the decision's counter (post-increment on grants); gauge suppliers are bound to the constructed object and limit gauges read the enforced-limit field; both registries dispatch a listener's kind tag to the backend call of the same kind under prefix+ID and reuse existing listeners; Start spawns once and sets started, Stop signals, clears and awaits outside any mutex the poller takes, the loop returns on the stop signal and gauges are polled only inside it. Units and poll-time numeric equality are not covered.",
+         "5/C20"),
 }
 
 PENDING_REASON = "check not built yet in this session; see DESIGN.md section 5 for the planned static obligations"
